@@ -344,13 +344,11 @@ func checkCondition(c *Ctx, ev *Evaluator, p *Path, el *T, kind string, target *
 				return fail(fmt.Sprintf("must be util.ErrorTypesMatch(actual error, target #%d) with the target captured per argument", k), q)
 			}
 		case "result":
+			// abort / cancel conditions on a result match whatever error accompanies it (documented as "if the
+			// execution result matches"; only HandleResult is documented to ignore outcomes carrying an error)
 			v, okc := expectCall("DeepEqual", r, target)
 			if !okc {
-				// also accept the error-guarded form
-				if q.State.Facts.Truth(ts, aE) == triT && len(calls) == 0 && got == triF {
-					continue
-				}
-				return fail("must be reflect.DeepEqual(actual result, target)", q)
+				return fail("must be reflect.DeepEqual(actual result, target), whether or not the outcome also carries an error", q)
 			}
 			if v != got || got == triU {
 				return fail("must return reflect.DeepEqual(actual result, target)", q)
@@ -619,12 +617,109 @@ func c12Unwrap(c *Ctx) {
 			} else if len(as) != 1 || as[0].Args[0] != e0 || p.State.Facts.Truth(ev.TS, p.Rets[0]) != p.State.Facts.Truth(ev.TS, as[0].Res[0]) {
 				good = false
 				c.Fail(c.fn(etm), c.P.FuncPos(etm), "a non-nil error must be classified by errorAs(err, target type)", pathTrace(ev, p))
+			} else if msg := targetTypeDerivation(c, ev, p, ev.Param(etm, etm.Params[1].Name()), as[0].Args[1]); msg != "" {
+				good = false
+				c.Fail(c.fn(etm)+"#target-type", c.P.FuncPos(etm), msg, pathTrace(ev, p))
 			}
 		}
 		if good {
 			c.Ok(c.fn(etm), c.P.FuncPos(etm), "nil ⇒ false; else errorAs(err, targetType)")
 		}
 	}
+}
+
+// targetTypeDerivation checks, on one returning path of ErrorTypesMatch, that the type handed to errorAs is the
+// documented one: T1 = the target's type with one pointer level removed (so that &MyErr{} and MyErr{} name the same
+// error type and *SomeInterface names the interface); T1 itself when it is an interface or implements error, else
+// *T1 when that implements error. The reflect calls are pure events of the path; their outcomes are path facts.
+func targetTypeDerivation(c *Ctx, ev *Evaluator, p *Path, target, used *T) string {
+	ts := ev.TS
+	F := p.State.Facts
+	reflectConst := func(name string) *T {
+		pk := c.P.ByPath["reflect"]
+		if pk == nil {
+			for _, q := range c.P.Prog.AllPackages() {
+				if q.Pkg.Path() == "reflect" {
+					if k, ok := q.Pkg.Scope().Lookup(name).(*types.Const); ok {
+						return ts.Const(k.Val(), k.Type())
+					}
+				}
+			}
+			return nil
+		}
+		if k, ok := pk.Types.Scope().Lookup(name).(*types.Const); ok {
+			return ts.Const(k.Val(), k.Type())
+		}
+		return nil
+	}
+	ptrK, ifaceK := reflectConst("Ptr"), reflectConst("Interface")
+	if ptrK == nil || ifaceK == nil {
+		return "reflect.Ptr / reflect.Interface not resolvable"
+	}
+	call1 := func(method string, recv *T) *T {
+		for _, e := range p.Events() {
+			if isCall(e, method) && e.Recv == recv && len(e.Res) >= 1 {
+				return e.Res[0]
+			}
+		}
+		return nil
+	}
+	var t0 *T
+	for _, e := range p.Events() {
+		if isCall(e, "TypeOf") && len(e.Args) == 1 && e.Args[0] == target && len(e.Res) == 1 {
+			t0 = e.Res[0]
+		}
+	}
+	if t0 == nil {
+		return "the target's type is not taken with reflect.TypeOf(target)"
+	}
+	kindIs := func(t, k *T) tri {
+		kk := call1("Kind", t)
+		if kk == nil {
+			return triU
+		}
+		return F.Truth(ts, ts.Cmp("==", kk, k))
+	}
+	implements := func(t *T) tri {
+		for _, e := range p.Events() {
+			if isCall(e, "Implements") && e.Recv == t && len(e.Args) == 1 && isGlobal(e.Args[0], "errorType") {
+				return F.Truth(ts, e.Res[0])
+			}
+		}
+		return triU
+	}
+	var t1 *T
+	switch kindIs(t0, ptrK) {
+	case triT:
+		t1 = call1("Elem", t0)
+		if t1 == nil {
+			return "a pointer target must be dereferenced once (&MyErr{} and MyErr{} name the same error type)"
+		}
+	case triF:
+		t1 = t0
+	default:
+		return "the path does not establish whether the target is a pointer"
+	}
+	isIface, impl := kindIs(t1, ifaceK), implements(t1)
+	switch {
+	case isIface == triT || impl == triT:
+		if used != t1 {
+			return "an interface target, or a target type that implements error, must be matched as it is (after removing one pointer level)"
+		}
+	case isIface == triF && impl == triF:
+		var t2 *T
+		for _, e := range p.Events() {
+			if isCall(e, "PointerTo") && len(e.Args) == 1 && e.Args[0] == t1 && len(e.Res) == 1 {
+				t2 = e.Res[0]
+			}
+		}
+		if t2 == nil || used != t2 || implements(t2) != triT {
+			return "a target type that does not implement error may only be matched through its pointer type, and only when that implements error (else panic)"
+		}
+	default:
+		return "the path does not establish whether the target type is an interface / implements error"
+	}
+	return ""
 }
 
 func findTypeOK(p *Path, x *T, iface string) *T {
